@@ -24,7 +24,9 @@ the (func, arg) pair; `pthread_cond_signal` wakes the longest waiting thread.
 namespace AwsVerif.Threads
 
 inductive Action where
-  | launch (k : Nat)
+  /-- `aws_thread_launch` of slot `k`; `pin`: options->cpu_id >= 0; `nfail`: how many of this launch's
+      `pthread_create` calls fail with EINVAL (a cpu that cannot be honoured) -/
+  | launch (k : Nat) (pin : Bool) (nfail : Nat)
   | join (k : Nat)
   | cleanup (k : Nat)
   | atexit (cb : Nat)
@@ -79,7 +81,7 @@ inductive Instr where
   | waitForPred
   -- sync
   | lock | unlock | signal
-  | create (k : Nat)
+  | create (k : Nat) (pin : Bool) (nfail : Nat)
   | joinM (k : Nat)          -- pthread_join from join_and_free_wrapper_list
   | joinU (k : Nat)          -- pthread_join from aws_thread_join on the user's handle
   | detach (k : Nat)
@@ -180,8 +182,8 @@ def launchedManaged (P : Prog) (s : State) : Nat → List Nat
 
 /-- expansion of one user action into micro-instructions (evaluated when the action is reached) -/
 def expand (P : Prog) (s : State) (_t : Nat) : Action → List Instr
-  | .launch k =>
-    [.allocW k] ++ (if P.managed k then [.lock, .incCount, .unlock] else []) ++ [.create k]
+  | .launch k pin nf =>
+    [.allocW k] ++ (if P.managed k then [.lock, .incCount, .unlock] else []) ++ [.create k pin nf]
   | .join k => if s.hstate k = .joinable then [.joinU k] else [.logJoin k]
   | .cleanup k => if s.hstate k = .joinable then [.detach k] else []
   | .atexit _ => []            -- handled directly (purely local)
@@ -195,7 +197,7 @@ def expand (P : Prog) (s : State) (_t : Nat) : Action → List Instr
 def handOverCode : List Instr := [.lock, .pjaSwapPush]
 
 def Instr.isSync : Instr → Bool
-  | .lock | .unlock | .signal | .create _ | .joinM _ | .joinU _ | .detach _ | .cwait _ | .cwake
+  | .lock | .unlock | .signal | .create _ _ _ | .joinM _ | .joinU _ | .detach _ | .cwait _ | .cwake
   | .sleepUntil _ | .yield => true
   | _ => false
 
@@ -250,17 +252,23 @@ def exec (P : Prog) (s : State) (t : Nat) (i : Instr) (rest : List Instr) : Opti
   | .allocW _ =>
     some (cont { s with wLive := s.wLive + 1 } t me rest)
   | .freeW k => some (cont (freeWrapper s k) t me rest)
-  | .create k =>
-    -- pthread_create and the local tail of aws_thread_launch that depends on its result
+  | .create k pin nf =>
+    -- pthread_create and the local tail of aws_thread_launch that depends on its result: on failure the count
+    -- is rolled back and the wrapper destroyed; if a cpu was requested (`pin`) the launch is then attempted
+    -- once more without pinning (the recursive aws_thread_launch with cpu_id = -1), otherwise the error is returned
     let s0 := { s with creates := s.creates + 1 }
-    let rollback (e : Nat) : List Instr :=
-      (if P.managed k then [Instr.lock, .decCount, .signal, .unlock] else []) ++ [.freeW k, .logLaunch k e]
+    let after (e : Nat) : List Instr :=
+      (if P.managed k then [Instr.lock, .decCount, .signal, .unlock] else []) ++ [.freeW k] ++
+      (if pin then [Instr.allocW k] ++ (if P.managed k then [Instr.lock, .incCount, .unlock] else []) ++
+          [.create k false (nf - 1)]
+       else [.logLaunch k e])
     let hfail := if P.managed k then upd s.hstate k .managed else s.hstate
-    if P.failAt = some s.creates then
-      some (pushW (cont { s0 with hstate := hfail } t { me with rErr := P.failErr } (rollback P.failErr ++ rest))
-        (wev s t "create" "t-1" (Int.ofNat P.failErr)))
+    if 0 < nf ∨ P.failAt = some s.creates then
+      let e := if 0 < nf then 22 else P.failErr
+      some (pushW (cont { s0 with hstate := hfail } t { me with rErr := e } (after e ++ rest))
+        (wev s t "create" "t-1" (Int.ofNat e)))
     else if (s.th k).status ≠ .notCreated ∨ k = 0 ∨ P.n ≤ k ∨ t = k then
-      some (cont { s0 with hstate := hfail } t { me with rErr := 22 } (rollback 22 ++ rest))
+      some (cont { s0 with hstate := hfail } t { me with rErr := 22 } (after 22 ++ rest))
     else
       let child : Th := { status := .created, ord := s.nextOrd, wFunc := k, wArg := k }
       let s1 := { s0 with th := upd s0.th k child, nextOrd := s.nextOrd + 1,
@@ -391,6 +399,6 @@ def AllFinished (P : Prog) (s : State) : Prop :=
 structure WFProgress (P : Prog) : Prop extends WF P where
   joinAllMain : ∀ k, k ≠ 0 → Action.joinAll ∉ P.body k
   joinOnce : ∀ k, ((List.range P.n).flatMap (fun j => (P.body j).filter (· == Action.join k))).length ≤ 1
-  launchOnce : ∀ k, ((List.range P.n).flatMap (fun j => (P.body j).filter (· == Action.launch k))).length ≤ 1
+  launchOnce : ∀ k, ((List.range P.n).flatMap (fun j => (P.body j).filter (fun a => match a with | .launch k' _ _ => k' == k | _ => false))).length ≤ 1
 
 end AwsVerif.Threads
